@@ -18,8 +18,8 @@ func init() {
 		Technique: "control-dependence and dominance of window tests before flow.take, feasible-path enumeration of processData/sendWindowUpdate32 for refund pairing, value-flow (announced increment = credited increment), who-may-touch census of the receive windows",
 		Meta: core.Meta{
 			Level:       "other",
-			Explanation: "Decides, on every path of the inspected bfe_http2 functions: (a) every flow.take on a receive window (serverConn.inflow, stream.inflow) takes the frame's FrameHeader.Length (padding included), is control-dependent on `Length <= available()` of the same window (non-strict, tested immediately before, nothing mutating the window in between), the excess branch only returns an error whose Code is ErrCodeFlowControl for the frame's stream id and touches no window, and the body pipe is written only after the take; (b) refund pairing in processData by path enumeration: a connection-level take is refunded by the same amount before every return; after a stream-level take an accepted frame refunds Length-len(data) on both levels whenever that is positive and skips the body write only for empty data; a frame rejected after the take refunds the connection level; (c) noteBodyRead refunds the connection level unconditionally and the stream level with the same n unless the stream state is HalfClosedRemote/Closed; RequestBody.Read reports exactly the n > 0 returned by the pipe, through bodyReadCh, to noteBodyRead; (d) sendWindowUpdate passes the stream through, splits into increments <= 2^31-1 and loses nothing; sendWindowUpdate32 announces in the WINDOW_UPDATE frame the same n it credits with flow.add, on the matching level (st == nil <=> serverConn.inflow), on every path except n == 0; every stream-level refund is dominated by a connection-level refund of the same amount; (e) who may take/credit/alias the receive windows and who may call the refund functions (census); (f) advertised = accounted: the SETTINGS_INITIAL_WINDOW_SIZE value sent, stream.isw, the initial credit of stream.inflow and the body buffer size come from the same source, stream.inflow is linked to serverConn.inflow, the connection window starts at the RFC default; (g) the arithmetic shape of flow.available/take/add; (h) closing a stream refunds at connection level the octets still buffered in its body pipe. Not covered: sums over long histories (the rules are per-path necessary conditions); that the handler eventually reads; the 2^31-1 ceiling of window sizes configured by the operator; DATA discarded after GOAWAY or refused for exceeding Content-Length is not debited at all (no window change, so no stall).",
-			RuleText:    "obligations = each receive-window take (amount, guard, freshness, excess branch), each (take kind, exit) class of processData paths, each refund call of noteBodyRead, each sendWindowUpdate32 call of sendWindowUpdate, each path class of sendWindowUpdate32, each stream-level refund in the package, each site touching a receive window, each caller of the refund functions, each initial-window source, the flow methods, closeStream",
+			Explanation: "Decides, on every path of the inspected bfe_http2 functions: (a) every flow.take on a receive window (serverConn.inflow, stream.inflow) takes the frame's FrameHeader.Length (padding included), is control-dependent on `Length <= available()` of the same window (non-strict, tested immediately before, nothing mutating the window in between), the excess branch only returns an error whose Code is ErrCodeFlowControl for the frame's stream id and touches no window, and the body pipe is written only after the take; (b) refund pairing in processData by path enumeration: a connection-level take is refunded by the same amount before every return; after a stream-level take an accepted frame refunds Length-len(data) on both levels whenever that is positive and skips the body write only for empty data; a frame rejected after the take refunds the connection level; (c) noteBodyRead refunds the connection level unconditionally and the stream level with the same n unless the stream state is HalfClosedRemote/Closed; RequestBody.Read reports exactly the n > 0 returned by the pipe, through bodyReadCh, to noteBodyRead; (d) sendWindowUpdate passes the stream through, splits into increments <= 2^31-1 and loses nothing; sendWindowUpdate32 announces in the WINDOW_UPDATE frame the same n it credits with flow.add, on the matching level (st == nil <=> serverConn.inflow), on every path except n == 0; every stream-level refund is dominated by a connection-level refund of the same amount; (e) who may take/credit/alias the receive windows and who may call the refund functions (census); (f) advertised = accounted: the SETTINGS_INITIAL_WINDOW_SIZE value sent, stream.isw, the initial credit of stream.inflow and the body buffer size come from the same source, stream.inflow is linked to serverConn.inflow, the connection window starts at the RFC default; (g) the arithmetic shape of flow.available/take/add; (h) closing a stream refunds at connection level the octets still buffered in its body pipe; (i) refunded once: any refund (connection or stream level, any function of the package) whose amount is what a body pipe reports about itself (its buffered length; results of Pipe methods that move no data) is followed on every path, or preceded, by Pipe.Release or Pipe.BreakWithError of the same pipe, so that the octets refunded in advance can no longer be read and refunded again by noteBodyRead (CloseWithError alone keeps them readable); this rests on Pipe.Release dropping the buffer on every path, Pipe.BreakWithError recording breakErr, and Pipe.Read taking bytes from the buffer only under breakErr == nil && b != nil, which are checked in bfe_util/pipe. Not covered: a handler read that races with closeStream between the length query and the release of the pipe; sums over long histories (the rules are per-path necessary conditions); that the handler eventually reads; the 2^31-1 ceiling of window sizes configured by the operator; DATA discarded after GOAWAY or refused for exceeding Content-Length is not debited at all (no window change, so no stall).",
+			RuleText:    "obligations = each receive-window take (amount, guard, freshness, excess branch), each (take kind, exit) class of processData paths, each refund call of noteBodyRead, each sendWindowUpdate32 call of sendWindowUpdate, each path class of sendWindowUpdate32, each stream-level refund in the package, each site touching a receive window, each caller of the refund functions, each initial-window source, the flow methods, closeStream, each refund computed from a body pipe's state, the disabling methods of pipe.Pipe",
 			Assumptions: []string{"flow values are reached only through the four fields serverConn.inflow/flow and stream.inflow/flow (any other access path is itself reported)", "pipe.Pipe.Write either stores all of data or returns an error (checked at run time by processData's `wrote != len(data)` panic)"},
 		},
 		Run: runC33,
@@ -31,7 +31,7 @@ func init() {
 			{Name: "pad-conn-refund-dropped", File: "bfe_http2/server.go", Old: "			sc.sendWindowUpdate(nil, pad) // conn-level\n			sc.sendWindowUpdate(st, pad)  // stream-level", New: "			sc.sendWindowUpdate(st, pad)  // stream-level", Expect: "refund-path|processData:stream-in-take->return-nil"},
 			{Name: "pad-threshold", File: "bfe_http2/server.go", Old: "pad := int(f.Length) - int(len(data)); pad > 0 {", New: "pad := int(f.Length) - int(len(data)); pad > 1 {", Expect: "refund-path|processData:stream-in-take->return-nil"},
 			{Name: "closed-stream-refund-dropped", File: "bfe_http2/server.go", Old: "		sc.inflow.take(int32(f.Length))\n		sc.sendWindowUpdate(nil, int(f.Length))\n", New: "		sc.inflow.take(int32(f.Length))\n", Expect: "refund-path|processData:conn-in-take"},
-			{Name: "write-before-take", File: "bfe_http2/server.go", Old: "		st.inflow.take(int32(f.Length))\n\n		if len(data) > 0 {\n			wrote, err := st.body.Write(data)\n			if err != nil {\n				errMsg := fmt.Sprintf(\"stream body write error: %s\", err)\n				return StreamError{id, ErrCodeStreamClosed, errMsg}\n			}", New: "		if len(data) > 0 {\n			wrote, err := st.body.Write(data)\n			if err != nil {\n				errMsg := fmt.Sprintf(\"stream body write error: %s\", err)\n				return StreamError{id, ErrCodeStreamClosed, errMsg}\n			}\n			st.inflow.take(int32(f.Length))", Expect: "accept-after-take"},
+			{Name: "write-before-take", File: "bfe_http2/server.go", Old: "		st.inflow.take(int32(f.Length))\n\n		if len(data) > 0 {\n			wrote, err := st.body.Write(data)\n			if err != nil {\n", New: "		if len(data) > 0 {\n			wrote, err := st.body.Write(data)\n			st.inflow.take(int32(f.Length))\n			if err != nil {\n", Expect: "accept-after-take"},
 			{Name: "bodyread-conn-conditional", File: "bfe_http2/server.go", Old: "	sc.sendWindowUpdate(nil, n) // conn-level\n	if st.state != stateHalfClosedRemote && st.state != stateClosed {", New: "	if st.state != stateHalfClosedRemote && st.state != stateClosed {\n		sc.sendWindowUpdate(nil, n) // conn-level", Expect: "body-read-refund|noteBodyRead:conn-level"},
 			{Name: "bodyread-stream-skipped-when-open", File: "bfe_http2/server.go", Old: "	if st.state != stateHalfClosedRemote && st.state != stateClosed {\n		// Don't send this WINDOW_UPDATE", New: "	if st.state != stateHalfClosedRemote && st.state != stateOpen {\n		// Don't send this WINDOW_UPDATE", Expect: "body-read-refund|noteBodyRead:stream-level"},
 			{Name: "announce-differs-from-credit", File: "bfe_http2/server.go", Old: "		ok = st.inflow.add(n)\n	}", New: "		ok = st.inflow.add(n - 1)\n	}", Expect: "announce-account|sendWindowUpdate32:credit"},
@@ -44,6 +44,10 @@ func init() {
 			{Name: "take-no-conn-debit", File: "bfe_http2/flow.go", Old: "	if f.conn != nil {\n		f.conn.n -= n\n	}", New: "	if f.conn != nil && n > 1 {\n		f.conn.n -= n\n	}", Expect: "flow-arith|take:conn-window-guard"},
 			{Name: "one-byte-frames-unaccounted", File: "bfe_http2/server.go", Old: "	if f.Length > 0 {\n		// Check whether the client has flow control quota.", New: "	if f.Length > 1 {\n		// Check whether the client has flow control quota.", Expect: "refund-path|processData:no-take->return-nil"},
 			{Name: "pad-conn-refund-twice", File: "bfe_http2/server.go", Old: "			sc.sendWindowUpdate(nil, pad) // conn-level\n", New: "			sc.sendWindowUpdate(nil, pad) // conn-level\n			sc.sendWindowUpdate(nil, pad)\n", Expect: "refund-path|processData:stream-in-take->return-nil"},
+			{Name: "close-refund-leaves-pipe-readable", File: "bfe_http2/server.go", Old: "	if p := st.body; p != nil {\n		p.CloseWithError(err)\n", New: "	if p := st.body; p != nil {\n		sc.sendWindowUpdate(nil, len(p.Done()))\n		p.CloseWithError(err)\n", Expect: "refund-once|serverConn.closeStream"},
+			{Name: "overflow-refund-leaves-pipe-readable", File: "bfe_http2/server.go", Old: "		st.body.CloseWithError(err)\n		// RFC 7540, sec 8.1.2.6", New: "		sc.sendWindowUpdate(nil, len(st.body.Done()))\n		st.body.CloseWithError(err)\n		// RFC 7540, sec 8.1.2.6", Expect: "refund-once|serverConn.processData"},
+			{Name: "release-keeps-buffer", File: "bfe_util/pipe/pipe.go", Old: "	pool.Put(p.b)\n	p.b = nil\n", New: "	pool.Put(p.b)\n", Expect: "pipe-disable|Pipe.Release"},
+			{Name: "silent-close-refund-then-break", Silent: true, File: "bfe_http2/server.go", Old: "	if p := st.body; p != nil {\n		p.CloseWithError(err)\n", New: "	if p := st.body; p != nil {\n		sc.sendWindowUpdate(nil, len(p.Done()))\n		p.BreakWithError(err)\n		p.CloseWithError(err)\n"},
 			{Name: "silent-rename-and-log", Silent: true, File: "bfe_http2/server.go", Old: "		st.inflow.take(int32(f.Length))\n\n		if len(data) > 0 {", New: "		frameLen := int32(f.Length)\n		st.inflow.take(frameLen)\n		log.Logger.Debug(\"http2: took %d\", frameLen)\n\n		if len(data) > 0 {"},
 			{Name: "silent-reorder-zero-and-negative-tests", Silent: true, File: "bfe_http2/server.go", Old: "	if n == 0 {\n		return\n	}\n	if n < 0 {\n		panic(\"negative update\")\n	}", New: "	if n < 0 {\n		panic(\"negative update\")\n	}\n	if n == 0 {\n		return\n	}"},
 		},
@@ -174,6 +178,7 @@ func runC33(c *core.Ctx) {
 	c33ReadNotify(c)
 	c33WindowInit(c, fl)
 	c33CloseRefund(c)
+	c33RefundOnce(c)
 }
 
 func c33ProcessData(c *core.Ctx, fl *h2aFlows) {
@@ -1089,7 +1094,36 @@ func c33CloseRefund(c *core.Ctx) {
 	for i, cl := range closers {
 		ok := false
 		core.Instrs(fn, func(in ssa.Instruction) {
-			if r, isR := h2aRefundOf(in); isR && r.conn && fromBody(r.amount) && core.Dominates(in, cl) {
+			r, isR := h2aRefundOf(in)
+			if !isR || !r.conn || !fromBody(r.amount) {
+				return
+			}
+			if core.Dominates(in, cl) {
+				ok = true
+				return
+			}
+			// `if n := <unread>; n > 0 { refund(n) }`: skipped only when there is nothing to give back
+			own := 0
+			for _, g := range core.GuardsAt(in.Block()) {
+				if g.If == nil || g.If.Block() == cl.Block() || !core.Dominates(g.If, cl) {
+					continue
+				}
+				shared := false
+				for _, h := range core.GuardsAt(cl.Block()) {
+					if h.If == g.If {
+						shared = true
+					}
+				}
+				if shared {
+					continue
+				}
+				v, sense, isPos := h2aPosTest(g.Cond)
+				if !isPos || sense != g.Pol || !h2aSame(v, r.amount) {
+					return
+				}
+				own++
+			}
+			if own > 0 {
 				ok = true
 			}
 		})
